@@ -124,7 +124,8 @@ PROPS = {
              rewrite=[{"files": ["logger/logger.go"], "opts": ["-imports", "-stmt"]}]),
         unit("c20-formatters", "proxy", PROXY_COMMON + ["proxy/c20_test.go", "proxy/c20_e2e_test.go"], "^TestVerifC20"),
         unit("c20-uuid", "uuid", ["uuid/c20_test.go"], "^TestVerifC20"),
-    ], layers={"quick": ["c20-fields", "c20-formats", "c20-atoi", "c20-history", "c20-formatters", "c20-e2e", "c20-uuid", "c20-sched"], "thorough": ["c20-fields", "c20-formats", "c20-atoi", "c20-history", "c20-formatters", "c20-e2e", "c20-uuid", "c20-sched"]}),
+        unit("c20-main", ".", MAIN_COMMON + ["main/c19_test.go", "main/c20_main_test.go"], "^TestVerifC20Main", engines=["vhook"], rewrite=[{"files": ["transport/transport.go"], "opts": ["-sel", "net.Dialer=vhook.Dialer"]}]),
+    ], layers={"quick": ["c20-fields", "c20-formats", "c20-atoi", "c20-history", "c20-formatters", "c20-e2e", "c20-main", "c20-uuid", "c20-sched"], "thorough": ["c20-fields", "c20-formats", "c20-atoi", "c20-history", "c20-formatters", "c20-e2e", "c20-main", "c20-uuid", "c20-sched"]}),
     "C10": dict(level="exploration", engine="benum",
         technique="bounded-exhaustive ClientHello corpus from the real crypto/tls client + every truncation and single-byte substitution, differential against tls.Server on the same bytes",
         level_text="432+ ClientHellos emitted by the real crypto/tls client over the product of version windows, names, ALPN, cipher and curve lists, resumption, plus hand-assembled edge hellos; each is parsed by fabio's 9-byte peek + clientHelloBufferSize + readServerName and by tls.Server (GetConfigForClient) on the same bytes. Every prefix of every hello and every single-byte substitution (12 values) at every offset is parsed: no panic (Go bounds checks make no-panic equal memory safety), buffer bounded by the first record, and names agree whenever the TLS stack still accepts the mutated bytes. clientHelloBufferSize on all 2^16 record lengths.",
